@@ -26,6 +26,11 @@ COPY_OPS = {"aten.copy_"}
 NONHOM_OPS = {  # neither movement nor homogeneous: raw codes cannot stand for values
     "aten.add", "aten.sub", "aten.sum", "aten.mean", "aten.gelu", "aten.sigmoid", "aten.tanh", "aten.silu", "aten.masked_fill",
     "aten.addmm", "aten.linear", "aten.index_select",
+    # ops that bring in values which are not divided by the scale (fills, pads), or that are not positively homogeneous of degree one
+    "aten.constant_pad_nd", "aten.fill", "aten.fill_", "aten.index_fill", "aten.index_put", "aten.scatter", "aten.masked_scatter", "aten.full_like",
+    "aten.ones_like", "aten.clamp", "aten.clamp_min", "aten.clamp_max", "aten.hardtanh", "aten.pow", "aten.exp", "aten.log", "aten.sqrt", "aten.rsqrt",
+    "aten.reciprocal", "aten.round", "aten.floor", "aten.ceil", "aten.trunc", "aten.cumsum", "aten.var", "aten.std", "aten.norm", "aten.softplus",
+    "aten.erf", "aten.native_layer_norm", "aten.layer_norm", "aten.convolution", "aten.conv2d", "aten.log_softmax", "aten._log_softmax", "aten.sign",
 }
 KNOWN_OPS = MOVE_OPS | PRESERVE_OPS | EWHOM_OPS | JOIN_OPS | SCALE_OPS | COMPARE_OPS | CONTRACT_OPS | REQUANT_OPS | PREDICATE_OPS | COPY_OPS | NONHOM_OPS
 # ops without a float8 CPU kernel (the repo's own comments for neg/relu/cat; lt/mm/bmm confirmed on torch 2.14)
